@@ -34,8 +34,28 @@ MUT_RECV = {'_mat_mul', '__iadd__', '__isub__', '__imul__', '__itruediv__', '__i
 MUT_ARG0 = {'_vec_rot', '_to_angle'}
 
 
+_CONSTS: dict[str, ast.AST] = {}        # module-level literal constants of the file being read (set by angle_sites)
+_HELPERS: dict[str, ast.AST] = {}       # module-level functions / static methods whose body is a single `return expr`
+
+
 def _is360(n: ast.AST) -> bool:
+    if isinstance(n, ast.Name) and n.id in _CONSTS:
+        n = _CONSTS[n.id]
     return isinstance(n, ast.Constant) and type(n.value) in (int, float) and n.value == 360
+
+
+def _single_return_helpers(tree: ast.Module) -> dict[str, ast.AST]:
+    """name -> returned expression, for functions (module level or in a class) whose body is only `return expr`;
+    a name defined more than once is dropped."""
+    seen: dict[str, int] = {}
+    out: dict[str, ast.AST] = {}
+    for n in ast.walk(tree):
+        if isinstance(n, (ast.FunctionDef, ast.AsyncFunctionDef)):
+            seen[n.name] = seen.get(n.name, 0) + 1
+            body = [b for b in n.body if not (isinstance(b, ast.Expr) and isinstance(b.value, ast.Constant))]
+            if len(body) == 1 and isinstance(body[0], ast.Return) and body[0].value is not None and isinstance(n, ast.FunctionDef):
+                out[n.name] = body[0].value
+    return {k: v for k, v in out.items() if seen[k] == 1}
 
 
 def _single_bindings(fn: ast.AST | None) -> dict[str, ast.AST]:
@@ -63,13 +83,21 @@ def _single_bindings(fn: ast.AST | None) -> dict[str, ast.AST]:
 
 
 def classify_rhs(v: ast.AST, env: dict[str, ast.AST] | None = None, depth: int = 0) -> str:
-    if isinstance(v, ast.Name) and env and v.id in env and depth < 4:
+    """Kind of the value stored into an angle slot.  Locals bound once are replaced by their value, a module constant
+    equal to 360 counts as 360, and a call of a helper whose body is a single `return expr` is classified by that
+    expression (`_norm(v)` with `def _norm(x): return x % 360.0 % 360.0` is a double modulo)."""
+    if depth > 6:
+        return 'Other'
+    if isinstance(v, ast.Name) and env and v.id in env:
         return classify_rhs(env[v.id], env, depth + 1)      # `p = e % 360 % 360; ang._pitch = p`
+    if isinstance(v, ast.Call):
+        f = v.func
+        nm = f.id if isinstance(f, ast.Name) else f.attr if isinstance(f, ast.Attribute) and isinstance(f.value, ast.Name) else None
+        if nm in _HELPERS:
+            k = classify_rhs(_HELPERS[nm], None, depth + 1)
+            return k if k in ('Double360', 'Single360') else 'Other'     # a copy/zero inside a helper says nothing about the argument
     if isinstance(v, ast.BinOp) and isinstance(v.op, ast.Mod) and _is360(v.right):
-        inner = v.left
-        if isinstance(inner, ast.BinOp) and isinstance(inner.op, ast.Mod) and _is360(inner.right):
-            return 'Double360'
-        return 'Single360'
+        return 'Double360' if classify_rhs(v.left, env, depth + 1) in ('Single360', 'Double360') else 'Single360'
     if isinstance(v, ast.Attribute) and v.attr in FIELDS and isinstance(v.value, ast.Name):
         return 'CopyFromAngle'
     if isinstance(v, ast.Constant) and type(v.value) in (int, float) and v.value == 0:
@@ -134,6 +162,8 @@ def angle_sites() -> tuple[list[tuple[str, str, int]], dict]:
         tree = ast.parse(text)
         if rel != 'math.py':
             info['other_files_with_angle_slots'].append(rel)
+        _CONSTS.clear(); _CONSTS.update(_module_consts(tree))
+        _HELPERS.clear(); _HELPERS.update(_single_return_helpers(tree))
         envs: dict[int, dict[str, ast.AST]] = {}
         for cls, fn, fnode, node in _walk_funcs(tree):
             if id(fnode) not in envs:
@@ -143,6 +173,13 @@ def angle_sites() -> tuple[list[tuple[str, str, int]], dict]:
                     where = f'{rel}:{cls}.{fn}:{t.attr}'
                     if isinstance(node, ast.Assign) and len(node.targets) == 1 and node.targets[0] is t:
                         sites.append((where, classify_rhs(node.value, envs[id(fnode)]), node.lineno))
+                    elif isinstance(node, ast.Assign) and len(node.targets) == 1 and isinstance(node.targets[0], (ast.Tuple, ast.List)) \
+                            and isinstance(node.value, (ast.Tuple, ast.List)) and len(node.value.elts) == len(node.targets[0].elts) \
+                            and not any(isinstance(e, ast.Starred) for e in node.value.elts + node.targets[0].elts) \
+                            and any(e is t for e in node.targets[0].elts):
+                        # `a._pitch, a._yaw = p % 360 % 360, y % 360 % 360`: element-wise
+                        rhs = node.value.elts[[e is t for e in node.targets[0].elts].index(True)]
+                        sites.append((where, classify_rhs(rhs, envs[id(fnode)]), node.lineno))
                     elif isinstance(node, ast.AnnAssign) and node.value is None:
                         continue        # a bare annotation `_pitch: float` in a class body stores nothing
                     else:
@@ -365,64 +402,139 @@ def format_cfg(tree: ast.Module) -> dict:
                 'reason': str(e), 'digest': ast_digest(fn) if fn is not None else ''}
 
 
+def _paths(stmts: list[ast.stmt], states: list[tuple[dict[str, ast.AST], tuple]], out: list, what: str) -> list[tuple[dict[str, ast.AST], tuple]]:
+    """Symbolic execution of straight-line code with if/else and conditional expressions: every way to reach a
+    `return` is appended to out as (conditions, returned expression), both written over the parameters only (locals
+    substituted by their values).  Returns the (environment, conditions) states that fall through the statements."""
+    for st in stmts:
+        if not states:
+            break
+        if (isinstance(st, ast.Expr) and isinstance(st.value, ast.Constant)) or isinstance(st, ast.Pass):
+            continue
+        nxt: list[tuple[dict[str, ast.AST], tuple]] = []
+        for env, conds in states:
+            if isinstance(st, (ast.Assign, ast.AnnAssign)) and st.value is not None:
+                tg = st.targets if isinstance(st, ast.Assign) else [st.target]
+                if len(tg) != 1 or not isinstance(tg[0], ast.Name):
+                    raise TranslateError(f'{what}: assignment target not a plain name (line {st.lineno})')
+                nxt.append(({**env, tg[0].id: _subst(st.value, env)}, conds))
+            elif isinstance(st, ast.Return):
+                if st.value is None:
+                    raise TranslateError(f'{what}: bare return (line {st.lineno})')
+                _ret(_subst(st.value, env), conds, out)
+            elif isinstance(st, ast.If):
+                t = _subst(st.test, env)
+                nxt += _paths(st.body, [(env, conds + ((t, True),))], out, what)
+                nxt += _paths(st.orelse, [(env, conds + ((t, False),))], out, what)
+            else:
+                raise TranslateError(f'{what}: statement not understood (line {st.lineno})')
+        states = nxt
+    return states
+
+
+def _ret(e: ast.AST, conds: tuple, out: list) -> None:
+    if isinstance(e, ast.IfExp):
+        _ret(e.body, conds + ((e.test, True),), out)
+        _ret(e.orelse, conds + ((e.test, False),), out)
+    else:
+        out.append((conds, e))
+
+
+def _norm_cond(t: ast.AST, pol: bool) -> tuple[str, bool]:
+    """(text of the positive form, polarity): `not c`, `a not in b`, `a != b` and `'lit' == v` are normalised."""
+    while isinstance(t, ast.UnaryOp) and isinstance(t.op, ast.Not):
+        t, pol = t.operand, not pol
+    if isinstance(t, ast.Compare) and len(t.ops) == 1:
+        l, r, o = t.left, t.comparators[0], t.ops[0]
+        if isinstance(o, ast.NotIn):
+            o, pol = ast.In(), not pol
+        if isinstance(o, ast.NotEq):
+            o, pol = ast.Eq(), not pol
+        if isinstance(o, ast.Eq) and isinstance(l, ast.Constant) and not isinstance(r, ast.Constant):
+            l, r = r, l
+        t = ast.Compare(left=l, ops=[o], comparators=[r])
+    return ast.unparse(t), pol
+
+
 def _format_cfg(tree: ast.Module) -> dict:
+    """format_float read semantically: all return paths of the function, written over (x, places), must be exactly the
+    paths of  B = '%.{places}f' % (x [+ 0.0]);  [if '.' in B: B.rstrip('0').rstrip('.')];  ['0' if that == '-0'] -
+    whatever the spelling (early returns, conditional expressions, renamed or extra locals, format()/f-string/%)."""
     fn = next((n for n in tree.body if isinstance(n, ast.FunctionDef) and n.name == 'format_float'), None)
     if fn is None:
         raise TranslateError('format_float not found')
+    consts = _module_consts(tree)
     args = fn.args
-    if [a.arg for a in args.args] != ['x', 'places'] or len(args.defaults) != 1 or not isinstance(args.defaults[0], ast.Constant) \
-            or type(args.defaults[0].value) is not int:
+    dflt = args.defaults[0] if len(args.defaults) == 1 else None
+    if isinstance(dflt, ast.Name):
+        dflt = consts.get(dflt.id, dflt)
+    if [a.arg for a in args.args] != ['x', 'places'] or args.vararg or args.kwarg or args.kwonlyargs \
+            or not isinstance(dflt, ast.Constant) or type(dflt.value) is not int:
         raise TranslateError('format_float: signature not (x, places=<int>)')
-    cfg = {'places': args.defaults[0].value, 'adds_zero': None, 'strips': False, 'neg_zero_fix': False,
-           'digest': ast_digest(fn)}
-    body = [s for s in fn.body if not (isinstance(s, ast.Expr) and isinstance(s.value, ast.Constant))]
-    if not body:
-        raise TranslateError('format_float: empty body')
-    # 1. result = f'{x+0.0:.{places}f}'  |  f'{x:.{places}f}'
-    s0 = body[0]
-    if not (isinstance(s0, ast.Assign) and len(s0.targets) == 1 and isinstance(s0.targets[0], ast.Name)
-            and isinstance(s0.value, ast.JoinedStr) and len(s0.value.values) == 1
-            and isinstance(s0.value.values[0], ast.FormattedValue)):
-        raise TranslateError(f'format_float: first statement is not `result = f"{{...}}"` (line {s0.lineno})')
-    var = s0.targets[0].id
-    fv = s0.value.values[0]
-    e = ast.unparse(fv.value).replace(' ', '')
-    if e == 'x':
+    cfg = {'places': dflt.value, 'adds_zero': None, 'strips': False, 'neg_zero_fix': False, 'digest': ast_digest(fn)}
+    out: list = []
+    if _paths(fn.body, [({}, ())], out, 'format_float'):
+        raise TranslateError('format_float: a path ends without return')
+    paths = {(frozenset(_norm_cond(t, p) for t, p in conds), ast.unparse(e)) for conds, e in out}
+    for cs, _ in paths:
+        if len({c for c, _ in cs}) != len(cs):
+            raise TranslateError('format_float: contradictory conditions on a path')
+
+    def base_of(e: ast.AST) -> ast.AST | None:
+        """the formatted number in one of the spellings of '%.{places}f': returns the formatted operand"""
+        spec_ok = lambda sp: isinstance(sp, ast.JoinedStr) and ast.unparse(sp) == "f'.{places}f'"
+        if isinstance(e, ast.JoinedStr) and len(e.values) == 1 and isinstance(e.values[0], ast.FormattedValue) \
+                and e.values[0].conversion == -1 and e.values[0].format_spec is not None and spec_ok(e.values[0].format_spec):
+            return e.values[0].value
+        if isinstance(e, ast.Call) and isinstance(e.func, ast.Name) and e.func.id == 'format' and len(e.args) == 2 and not e.keywords and spec_ok(e.args[1]):
+            return e.args[0]
+        if isinstance(e, ast.BinOp) and isinstance(e.op, ast.Mod) and isinstance(e.left, ast.Constant) and e.left.value == '%.*f' \
+                and isinstance(e.right, ast.Tuple) and len(e.right.elts) == 2 and ast.unparse(e.right.elts[0]) == 'places':
+            return e.right.elts[1]
+        if isinstance(e, ast.Call) and isinstance(e.func, ast.Attribute) and e.func.attr == 'format' and isinstance(e.func.value, ast.Constant) \
+                and e.func.value.value == '{:.{}f}' and len(e.args) == 2 and not e.keywords and ast.unparse(e.args[1]) == 'places':
+            return e.args[0]
+        return None
+
+    # find B: the smallest returned expression, after peeling the strip calls, that is a formatted number
+    B = None
+    for _, e in out:
+        cand = e
+        while isinstance(cand, ast.Call) and isinstance(cand.func, ast.Attribute) and cand.func.attr == 'rstrip':
+            cand = cand.func.value
+        if base_of(cand) is not None:
+            B = cand
+            break
+    if B is None:
+        raise TranslateError('format_float: no path returns the number formatted with `.{places}f`')
+    operand = ast.unparse(base_of(B)).replace(' ', '')
+    if operand == 'x':
         cfg['adds_zero'] = False
-    elif e in ('x+0.0', '0.0+x', 'x+0', '0+x'):
+    elif operand in ('x+0.0', '0.0+x', 'x+0', '0+x'):
         cfg['adds_zero'] = True
     else:
-        raise TranslateError(f'format_float: formatted expression `{e}` not recognised')
-    if fv.conversion != -1 or fv.format_spec is None or ast.unparse(fv.format_spec) not in ("f'.{places}f'",):
-        raise TranslateError(f'format_float: format spec {ast.unparse(fv.format_spec) if fv.format_spec else None} not `.{{places}}f`')
-    rest = body[1:]
-    # 2. if '.' in result: result = result.rstrip('0').rstrip('.')
-    if rest and isinstance(rest[0], ast.If) and ast.unparse(rest[0].test) == f"'.' in {var}":
-        st = rest[0]
-        if len(st.body) != 1 or st.orelse or ast.unparse(st.body[0]) != f"{var} = {var}.rstrip('0').rstrip('.')":
-            raise TranslateError(f'format_float: unrecognised stripping statement (line {st.lineno})')
-        cfg['strips'] = True
-        rest = rest[1:]
-    # 3. optional `if result == '-0': return '0'` / `result = '0'`
-    if rest and isinstance(rest[0], ast.If):
-        st = rest[0]
-        if ast.unparse(st.test) in (f"{var} == '-0'", f"'-0' == {var}") and len(st.body) == 1 and not st.orelse \
-                and ast.unparse(st.body[0]) in ("return '0'", f"{var} = '0'"):
-            cfg['neg_zero_fix'] = True
-            rest = rest[1:]
-        else:
-            raise TranslateError(f'format_float: unrecognised if statement (line {st.lineno})')
-    # 4. return result | return '0' if result == '-0' else result
-    if len(rest) != 1 or not isinstance(rest[0], ast.Return):
-        raise TranslateError('format_float: unrecognised tail')
-    r = ast.unparse(rest[0].value)
-    if r == var:
-        pass
-    elif r in (f"'0' if {var} == '-0' else {var}", f"{var} if {var} != '-0' else '0'"):
-        cfg['neg_zero_fix'] = True
-    else:
-        raise TranslateError(f'format_float: unrecognised return expression `{r}`')
-    return cfg
+        raise TranslateError(f'format_float: formatted expression `{operand}` not recognised')
+    def over(template: str, **holes: ast.AST) -> str:
+        return ast.unparse(_subst(ast.parse(template, mode='eval').body, holes))
+    b = ast.unparse(B)
+    S = _subst(ast.parse("_B_.rstrip('0').rstrip('.')", mode='eval').body, {'_B_': B})
+    s_ = ast.unparse(S)
+    dot = lambda pol: (over("'.' in _B_", _B_=B), pol)
+    eq = lambda v, pol: (over("_V_ == '-0'", _V_=(B if v == b else S)), pol)
+    zero = "'0'"
+    shapes = {
+        (False, False): {(frozenset(), b)},
+        (True, False): {(frozenset({dot(True)}), s_), (frozenset({dot(False)}), b)},
+        (False, True): {(frozenset({eq(b, True)}), zero), (frozenset({eq(b, False)}), b)},
+        (True, True): {(frozenset({dot(True), eq(s_, True)}), zero), (frozenset({dot(True), eq(s_, False)}), s_),
+                       (frozenset({dot(False), eq(b, True)}), zero), (frozenset({dot(False), eq(b, False)}), b)},
+    }
+    for (strips, fix), want in shapes.items():
+        if paths == want:
+            cfg['strips'], cfg['neg_zero_fix'] = strips, fix
+            return cfg
+    raise TranslateError('format_float: the return paths are not those of format / strip zeros / repair "-0": '
+                         + '; '.join(sorted(f'{sorted(c)} -> {e}' for c, e in paths))[:600])
 
 
 def str_templates(tree: ast.Module) -> dict:
@@ -461,88 +573,288 @@ def str_templates(tree: ast.Module) -> dict:
     return out
 
 
-# ---------------------------------------------------------------------------------------------- parse_vec_str / from_str
+# ---------------------------------------------------------------------------------------------- semantic helpers
 def _nodoc(body: list[ast.stmt]) -> list[ast.stmt]:
     return [s for s in body if not (isinstance(s, ast.Expr) and isinstance(s.value, ast.Constant) and isinstance(s.value.value, str))]
 
 
+def _module_consts(tree: ast.Module) -> dict[str, ast.AST]:
+    """Module-level names bound exactly once to a literal (string, number, tuple/set/list/frozenset of literals)."""
+    count: dict[str, int] = {}
+    val: dict[str, ast.AST] = {}
+    for n in tree.body:
+        for t in _targets(n):
+            if isinstance(t, ast.Name):
+                count[t.id] = count.get(t.id, 0) + 1
+                v = n.value if isinstance(n, (ast.Assign, ast.AnnAssign)) else None
+                if v is not None and (isinstance(n, ast.AnnAssign) or (len(n.targets) == 1 and n.targets[0] is t)):
+                    val[t.id] = v
+    def lit(v: ast.AST) -> bool:
+        if isinstance(v, ast.Constant):
+            return True
+        if isinstance(v, (ast.Tuple, ast.Set, ast.List)):
+            return all(lit(e) for e in v.elts)
+        if isinstance(v, ast.Call) and isinstance(v.func, ast.Name) and v.func.id in ('frozenset', 'set', 'tuple') and len(v.args) == 1 and not v.keywords:
+            return lit(v.args[0])
+        return False
+    return {k: v for k, v in val.items() if count[k] == 1 and lit(v)}
+
+
+class _Subst(ast.NodeTransformer):
+    def __init__(self, env: dict[str, ast.AST]):
+        self.env = env
+
+    def visit_Name(self, node: ast.Name):
+        if isinstance(node.ctx, ast.Load) and node.id in self.env:
+            return self.env[node.id]
+        return node
+
+
+def _subst(e: ast.AST, env: dict[str, ast.AST]) -> ast.AST:
+    """e with every loaded name of env replaced by its (already substituted) value."""
+    import copy as _copy
+    return _Subst(env).visit(_copy.deepcopy(e)) if env else e
+
+
+def _always_leaves(stmts: list[ast.stmt]) -> bool:
+    return bool(stmts) and isinstance(stmts[-1], (ast.Return, ast.Raise))
+
+
+def _merge_trys(stmts: list[ast.stmt]) -> list[ast.stmt]:
+    """`try: A except E: H` directly followed by `try: B except E: H` is `try: A; B except E: H` when every handler body
+    ends in return/raise (a handler that fell through would go on to run B) and there is no else/finally."""
+    out: list[ast.stmt] = []
+    for st in stmts:
+        prev = out[-1] if out else None
+        if (isinstance(st, ast.Try) and isinstance(prev, ast.Try)
+                and not (st.orelse or st.finalbody or prev.orelse or prev.finalbody)
+                and [ast.dump(h) for h in st.handlers] == [ast.dump(h) for h in prev.handlers]
+                and st.handlers and all(_always_leaves(h.body) for h in st.handlers)):
+            out[-1] = ast.Try(body=prev.body + st.body, handlers=prev.handlers, orelse=[], finalbody=[])
+            ast.copy_location(out[-1], prev)
+        else:
+            out.append(st)
+    return out
+
+
+def _bind_args(call: ast.Call, params: list[str]) -> list[ast.AST] | None:
+    """Arguments of a call by parameter position (positional and keyword forms are the same call), or None."""
+    if any(isinstance(a, ast.Starred) for a in call.args) or any(k.arg is None for k in call.keywords) or len(call.args) > len(params):
+        return None
+    got: dict[str, ast.AST] = dict(zip(params, call.args))
+    for k in call.keywords:
+        if k.arg not in params or k.arg in got:
+            return None
+        got[k.arg] = k.value
+    return [got[p] for p in params] if len(got) == len(params) else None
+
+
+def _chars_of(e: ast.AST, consts: dict[str, ast.AST]) -> str | None:
+    """The set of single characters denoted by a literal used on the right of `in` / in startswith(): a string constant
+    (character membership), a tuple/set/list/frozenset of one-character strings, or a module constant bound to one."""
+    if isinstance(e, ast.Name) and e.id in consts:
+        e = consts[e.id]
+    if isinstance(e, ast.Call) and isinstance(e.func, ast.Name) and e.func.id in ('frozenset', 'set', 'tuple') and len(e.args) == 1:
+        return _chars_of(e.args[0], consts)
+    if isinstance(e, ast.Constant) and isinstance(e.value, str):
+        return e.value
+    if isinstance(e, (ast.Tuple, ast.Set, ast.List)) and all(isinstance(x, ast.Constant) and isinstance(x.value, str) and len(x.value) == 1 for x in e.elts):
+        return ''.join(x.value for x in e.elts)
+    return None
+
+
+# ---------------------------------------------------------------------------------------------- parse_vec_str / from_str
+def _type_test(t: ast.AST, v: str, kind: str) -> bool | None:
+    """Value of a test of the type dispatch for an argument of abstract kind str / VecBase / AngleBase / other;
+    None when the test is not about the type of the argument."""
+    if isinstance(t, ast.UnaryOp) and isinstance(t.op, ast.Not):
+        r = _type_test(t.operand, v, kind)
+        return None if r is None else not r
+    if isinstance(t, ast.BoolOp):
+        rs = [_type_test(x, v, kind) for x in t.values]
+        if any(r is None for r in rs):
+            return None
+        return all(rs) if isinstance(t.op, ast.And) else any(rs)
+    if isinstance(t, ast.Call) and isinstance(t.func, ast.Name) and t.func.id == 'isinstance' and len(t.args) == 2 and not t.keywords \
+            and isinstance(t.args[0], ast.Name) and t.args[0].id == v:
+        c = t.args[1]
+        names = c.elts if isinstance(c, ast.Tuple) else [c]
+        res = False
+        for n in names:
+            if not isinstance(n, ast.Name):
+                return None
+            k = {'str': 'str', 'VecBase': 'VecBase', 'Py_VecBase': 'VecBase', 'AngleBase': 'AngleBase', 'Py_AngleBase': 'AngleBase'}.get(n.id)
+            if k is None:
+                raise TranslateError(f'parse_vec_str: isinstance test against unknown class {n.id} (line {t.lineno})')
+            res = res or k == kind
+        return res
+    return None
+
+
+def _dispatch(body: list[ast.stmt], v: str, kind: str):
+    """Run the leading type dispatch for one abstract kind of argument: ('ret', expr) when it returns, ('cont', i)
+    when control reaches top-level statement i that is not part of the dispatch, ('end',) at the end of the body."""
+    def run(stmts: list[ast.stmt], top: bool):
+        for i, st in enumerate(stmts):
+            if isinstance(st, ast.Pass):
+                continue
+            if isinstance(st, ast.Return):
+                return ('ret', st.value)
+            if isinstance(st, ast.If):
+                r = _type_test(st.test, v, kind)
+                if r is not None:
+                    out = run(st.body if r else st.orelse, False)
+                    if out is not None:
+                        return out
+                    continue
+            if top:
+                return ('cont', i)
+            raise TranslateError(f'parse_vec_str: statement inside the type dispatch not understood (line {st.lineno})')
+        return ('end',) if top else None
+    return run(body, True)
+
+
 def _parse_cfg(tree: ast.Module) -> dict:
+    """Shape of parse_vec_str, read semantically: the type dispatch is evaluated for the four kinds of argument (any
+    if/elif/else, early-return or negated spelling gives the same table), locals may be renamed, consecutive
+    try-blocks with the same leaving handler are one block, bracket sets may be literals or module constants."""
     fn = next((n for n in tree.body if isinstance(n, ast.FunctionDef) and n.name == 'parse_vec_str'), None)
     if fn is None:
         raise TranslateError('parse_vec_str not found')
     params = [a.arg for a in fn.args.args]
-    if len(params) != 4 or fn.args.vararg or fn.args.kwarg or fn.args.kwonlyargs:
+    if len(params) != 4 or fn.args.vararg or fn.args.kwarg or fn.args.kwonlyargs or fn.args.posonlyargs:
         raise TranslateError('parse_vec_str: signature not (val, x, y, z)')
     v, dx, dy, dz = params
-    defaults = f'return ({dx}, {dy}, {dz})'
+    consts = _module_consts(tree)
+    u = ast.unparse
     body = _nodoc(fn.body)
     cfg = {'strips_ws': False, 'opens': '', 'closes': '', 'splits_ws': False, 'uses_float': False, 'passthrough': False}
-    u = lambda n: ast.unparse(n)
-    i = 0
-    # 1. dispatch on the type of the argument: strings continue, vectors/angles are passed through, others give the defaults
-    if i < len(body) and isinstance(body[i], ast.If) and u(body[i].test) == f'isinstance({v}, str)':
-        st = body[i]
-        chain = []
-        cur: ast.stmt | None = st
-        while isinstance(cur, ast.If):
-            chain.append((u(cur.test), [u(x) for x in cur.body]))
-            if len(cur.orelse) == 1 and isinstance(cur.orelse[0], ast.If):
-                cur = cur.orelse[0]
-            else:
-                chain.append(('else', [u(x) for x in cur.orelse]))
-                cur = None
-        want = [(f'isinstance({v}, str)', ['pass']),
-                (f'isinstance({v}, VecBase)', [f'return ({v}.x, {v}.y, {v}.z)']),
-                (f'isinstance({v}, AngleBase)', [f'return ({v}.pitch, {v}.yaw, {v}.roll)']),
-                ('else', [defaults])]
-        if chain != want:
-            raise TranslateError(f'parse_vec_str: unrecognised type dispatch (line {st.lineno}): {chain}')
-        cfg['passthrough'] = True
-        i += 1
-    # 2. val = val.strip()
-    if i < len(body) and u(body[i]) == f'{v} = {v}.strip()':
+
+    def is_defaults(e: ast.AST | None) -> bool:
+        return isinstance(e, ast.Tuple) and [u(x) for x in e.elts] == [dx, dy, dz]
+
+    def is_fields(e: ast.AST | None, names: tuple[str, ...]) -> bool:
+        return isinstance(e, ast.Tuple) and len(e.elts) == 3 and all(u(x) in (f'{v}.{n}', f'{v}._{n}') for x, n in zip(e.elts, names))
+
+    # 1. type dispatch
+    outcome = {k: _dispatch(body, v, k) for k in ('str', 'VecBase', 'AngleBase', 'other')}
+    if outcome['str'][0] != 'cont':
+        raise TranslateError(f'parse_vec_str: a str argument does not reach the string pipeline ({outcome["str"][0]})')
+    i = outcome['str'][1]
+    cfg['passthrough'] = (outcome['VecBase'][0] == 'ret' and is_fields(outcome['VecBase'][1], ('x', 'y', 'z'))
+                          and outcome['AngleBase'][0] == 'ret' and is_fields(outcome['AngleBase'][1], ('pitch', 'yaw', 'roll'))
+                          and outcome['other'][0] == 'ret' and is_defaults(outcome['other'][1]))
+    rest = _merge_trys(body[i:])
+    cur = v           # the local that holds the text
+    j = 0
+    # 2. text = text.strip()
+    if j < len(rest) and isinstance(rest[j], ast.Assign) and len(rest[j].targets) == 1 and isinstance(rest[j].targets[0], ast.Name) \
+            and u(rest[j].value) == f'{cur}.strip()':
         cfg['strips_ws'] = True
-        i += 1
+        cur = rest[j].targets[0].id
+        j += 1
+
     # 3./4. the bracket removals, in this order
-    for which, idx, sl in (('opens', '0', '1:'), ('closes', '-1', ':-1')):
-        if i < len(body) and isinstance(body[i], ast.If):
-            st = body[i]
-            t = st.test
-            ok = (isinstance(t, ast.BoolOp) and isinstance(t.op, ast.And) and len(t.values) == 2 and u(t.values[0]) == v
-                  and isinstance(t.values[1], ast.Compare) and len(t.values[1].ops) == 1 and isinstance(t.values[1].ops[0], ast.In)
-                  and u(t.values[1].left) == f'{v}[{idx}]' and isinstance(t.values[1].comparators[0], ast.Constant)
-                  and isinstance(t.values[1].comparators[0].value, str)
-                  and not st.orelse and len(st.body) == 1 and u(st.body[0]) == f'{v} = {v}[{sl}]')
+    def nonempty(t: ast.AST) -> bool:
+        return u(t) in (cur, f'len({cur}) > 0', f'len({cur}) != 0', f'len({cur}) >= 1', f"{cur} != ''", f'bool({cur})')
+
+    def bracket_test(t: ast.AST, which: str) -> str | None:
+        idx = ('0',) if which == 'opens' else ('-1', f'len({cur}) - 1')
+        if isinstance(t, ast.BoolOp) and isinstance(t.op, ast.And) and len(t.values) == 2 and nonempty(t.values[0]):
+            c = t.values[1]
+            if isinstance(c, ast.Compare) and len(c.ops) == 1 and isinstance(c.ops[0], ast.In) and u(c.left) in [f'{cur}[{k}]' for k in idx]:
+                return _chars_of(c.comparators[0], consts)
+            return None
+        meth = 'startswith' if which == 'opens' else 'endswith'
+        if isinstance(t, ast.Call) and isinstance(t.func, ast.Attribute) and t.func.attr == meth and u(t.func.value) == cur \
+                and len(t.args) == 1 and not t.keywords:
+            a = t.args[0]
+            a = consts.get(a.id, a) if isinstance(a, ast.Name) else a
+            if isinstance(a, ast.Tuple):                 # a str argument would test a prefix, not a character set
+                return _chars_of(a, consts)
+        return None
+
+    for which, slices in (('opens', ('1:',)), ('closes', (':-1', f':len({cur}) - 1'))):
+        if j < len(rest) and isinstance(rest[j], ast.If):
+            st = rest[j]
+            chars = bracket_test(st.test, which)
+            ok = chars is not None and not st.orelse and len(st.body) == 1 and u(st.body[0]) in [f'{cur} = {cur}[{sl}]' for sl in slices]
             if not ok:
                 raise TranslateError(f'parse_vec_str: unrecognised bracket statement (line {st.lineno})')
-            cfg[which] = t.values[1].comparators[0].value
-            i += 1
-    # 5. try: a, b, c = val.split()  except ValueError: return defaults
-    def is_try(st, body_pred):
-        return (isinstance(st, ast.Try) and len(st.body) == 1 and body_pred(st.body[0]) and not st.orelse and not st.finalbody
-                and len(st.handlers) == 1 and st.handlers[0].type is not None and u(st.handlers[0].type) == 'ValueError'
-                and [u(x) for x in st.handlers[0].body] == [defaults])
-    names: list[str] = []
-    def split_stmt(x):
-        if isinstance(x, ast.Assign) and len(x.targets) == 1 and isinstance(x.targets[0], ast.Tuple) and u(x.value) == f'{v}.split()' \
-                and all(isinstance(e, ast.Name) for e in x.targets[0].elts) and len(x.targets[0].elts) == 3:
-            names.extend(e.id for e in x.targets[0].elts)
-            return True
-        return False
-    if i < len(body) and is_try(body[i], split_stmt):
-        cfg['splits_ws'] = True
-        i += 1
-    else:
+            cfg[which] = chars
+            j += 1
+
+    # 5./6. try: a, b, c = text.split(); return (float(a), float(b), float(c))   except ValueError: return defaults
+    if j >= len(rest) or not isinstance(rest[j], ast.Try):
         raise TranslateError('parse_vec_str: `try: a, b, c = val.split()` not found where expected')
-    # 6. try: return (float(a), float(b), float(c))  except ValueError: return defaults
-    def float_stmt(x):
-        return isinstance(x, ast.Return) and u(x.value) == '(' + ', '.join(f'float({n})' for n in names) + ')'
-    if i < len(body) and is_try(body[i], float_stmt):
-        cfg['uses_float'] = True
-        i += 1
-    if i != len(body):
-        raise TranslateError(f'parse_vec_str: unrecognised statement (line {body[i].lineno})')
+    st = rest[j]
+    if st.orelse or st.finalbody or len(st.handlers) != 1 or st.handlers[0].type is None or u(st.handlers[0].type) != 'ValueError' \
+            or len(st.handlers[0].body) != 1 or not isinstance(st.handlers[0].body[0], ast.Return) or not is_defaults(st.handlers[0].body[0].value):
+        raise TranslateError(f'parse_vec_str: the try block does not have the single handler `except ValueError: return defaults` (line {st.lineno})')
+    env: dict[str, ast.AST] = {}
+    names: list[str] = []
+    for x in st.body:
+        if isinstance(x, ast.Assign) and len(x.targets) == 1 and isinstance(x.targets[0], ast.Name) and x.targets[0].id not in env \
+                and x.targets[0].id not in params and x.targets[0].id != cur:
+            env[x.targets[0].id] = _subst(x.value, env)            # a local bound once inside the block
+        elif isinstance(x, ast.Assign) and len(x.targets) == 1 and isinstance(x.targets[0], (ast.Tuple, ast.List)) and not names \
+                and len(x.targets[0].elts) == 3 and all(isinstance(e, ast.Name) for e in x.targets[0].elts) \
+                and u(_subst(x.value, env)) == f'{cur}.split()':
+            names = [e.id for e in x.targets[0].elts]
+            if len(set(names)) != 3 or set(names) & (set(env) | {cur}):
+                raise TranslateError(f'parse_vec_str: split() unpacked into names that are not three fresh locals (line {x.lineno})')
+            cfg['splits_ws'] = True
+        elif isinstance(x, ast.Return) and names and x is st.body[-1]:
+            r = _subst(x.value, env) if x.value is not None else None
+            if isinstance(r, ast.Tuple) and [u(e) for e in r.elts] == [f'float({n})' for n in names]:
+                cfg['uses_float'] = True
+            else:
+                raise TranslateError(f'parse_vec_str: the block does not return (float(a), float(b), float(c)) (line {x.lineno})')
+        else:
+            raise TranslateError(f'parse_vec_str: unrecognised statement in the try block (line {x.lineno})')
+    if not names:
+        raise TranslateError('parse_vec_str: `a, b, c = val.split()` not found in the try block')
+    j += 1
+    if j != len(rest):
+        raise TranslateError(f'parse_vec_str: unrecognised statement (line {rest[j].lineno})')
     return cfg
+
+
+def _from_str_ok(f: ast.FunctionDef, callees: set[str], parse_params: list[str]) -> bool:
+    """from_str is `cls(*parse_vec_str(val, a, b, c))` in any spelling: the three results of the call (bound to any
+    three locals, or starred) are handed in order to the class, the defaults are passed in order to the parser."""
+    ps = [a.arg for a in f.args.args]
+    if len(ps) != 5 or f.args.vararg or f.args.kwarg or f.args.kwonlyargs:
+        return False
+    k, val, a, b, d = ps
+
+    def is_parse_call(e: ast.AST) -> bool:
+        if not (isinstance(e, ast.Call) and isinstance(e.func, ast.Name) and e.func.id in callees):
+            return False
+        args = _bind_args(e, parse_params)
+        return args is not None and [ast.unparse(x) for x in args] == [val, a, b, d]
+    env: dict[str, ast.AST] = {}
+    triple: list[str] | None = None
+    body = _nodoc(f.body)
+    for st in body[:-1]:
+        if isinstance(st, ast.Assign) and len(st.targets) == 1 and isinstance(st.targets[0], ast.Name) and st.targets[0].id not in env \
+                and st.targets[0].id not in (k, val):
+            env[st.targets[0].id] = _subst(st.value, env)
+        elif isinstance(st, ast.Assign) and len(st.targets) == 1 and isinstance(st.targets[0], (ast.Tuple, ast.List)) and triple is None \
+                and len(st.targets[0].elts) == 3 and all(isinstance(e, ast.Name) for e in st.targets[0].elts) and is_parse_call(_subst(st.value, env)):
+            triple = [e.id for e in st.targets[0].elts]
+            if len(set(triple)) != 3 or k in triple or val in triple:
+                return False
+        else:
+            return False
+    if not body or not isinstance(body[-1], ast.Return) or not isinstance(body[-1].value, ast.Call):
+        return False
+    c = body[-1].value
+    if not (isinstance(c.func, ast.Name) and c.func.id == k) or c.keywords:
+        return False
+    if triple is not None:
+        return [ast.unparse(x) for x in c.args] == triple
+    return len(c.args) == 1 and isinstance(c.args[0], ast.Starred) and is_parse_call(_subst(c.args[0].value, env))
 
 
 def parse_cfg(tree: ast.Module) -> dict:
@@ -553,23 +865,16 @@ def parse_cfg(tree: ast.Module) -> dict:
     except TranslateError as e:
         cfg = {'strips_ws': False, 'opens': '', 'closes': '', 'splits_ws': False, 'uses_float': False, 'passthrough': False,
                'recognised': False, 'reason': str(e)}
-    # from_str of the vector and angle base classes: `a, b, c = Py_parse_vec_str(val, a, b, c); return cls(a, b, c)`
-    alias = any(isinstance(n, ast.Assign) and len(n.targets) == 1 and isinstance(n.targets[0], ast.Name)
-                and n.targets[0].id == 'Py_parse_vec_str' and isinstance(n.value, ast.Name) and n.value.id == 'parse_vec_str'
-                for n in tree.body)
+    # from_str of the vector and angle base classes hands the three results of parse_vec_str to the class
+    callees = {'parse_vec_str'} | {n.targets[0].id for n in tree.body
+                                   if isinstance(n, ast.Assign) and len(n.targets) == 1 and isinstance(n.targets[0], ast.Name)
+                                   and isinstance(n.value, ast.Name) and n.value.id == 'parse_vec_str'}
+    pfn = next((n for n in tree.body if isinstance(n, ast.FunctionDef) and n.name == 'parse_vec_str'), None)
+    pparams = [a.arg for a in pfn.args.args] if pfn is not None else []
     for cname in ('VecBase', 'AngleBase'):
-        ok = False
         c = next((c for c in tree.body if isinstance(c, ast.ClassDef) and c.name == cname), None)
         f = next((f for f in (c.body if c else []) if isinstance(f, ast.FunctionDef) and f.name == 'from_str'), None)
-        if f is not None and _is_classmethod(f):
-            ps = [a.arg for a in f.args.args]
-            body = [ast.unparse(x) for x in _nodoc(f.body)]
-            if len(ps) == 5:
-                k, val, a, b, d = ps
-                callee = 'Py_parse_vec_str' if alias else 'parse_vec_str'
-                ok = body in ([f'{a}, {b}, {d} = {fn}({val}, {a}, {b}, {d})', f'return {k}({a}, {b}, {d})']
-                              for fn in {callee, 'parse_vec_str'})
-        cfg[f'{cname}.from_str'] = ok
+        cfg[f'{cname}.from_str'] = bool(f is not None and _is_classmethod(f) and len(pparams) == 4 and _from_str_ok(f, callees, pparams))
     return cfg
 
 
